@@ -23,6 +23,7 @@ import (
 	"github.com/go-openapi/swag"
 
 	"github.com/go-openapi/runtime"
+	"github.com/go-openapi/runtime/verifhook"
 )
 
 type validation struct {
@@ -65,8 +66,10 @@ func validateRequest(ctx *Context, request *http.Request, route *MatchedRoute) *
 	validate.debugLogf("validating request %s %s", request.Method, request.URL.EscapedPath())
 
 	validate.contentType()
+	verifhook.At("mw.validate.afterContentType")
 	if len(validate.result) == 0 {
 		validate.responseFormat()
+		verifhook.At("mw.validate.afterFormat")
 	}
 	if len(validate.result) == 0 {
 		validate.parameters()
